@@ -4,6 +4,8 @@ import glob, json, os
 rows = []
 for d in sorted(glob.glob('/verif/seeded/*/')):
     n = os.path.basename(d.rstrip('/'))
+    if n.startswith('_') or not os.path.exists(d + 'meta.json'):
+        continue  # _observations_*, _rejected_*: notes, not seeded changes
     m = json.load(open(d + 'meta.json'))
     r = json.load(open(d + 'result.json')) if os.path.exists(d + 'result.json') else None
     rows.append((n, m, r))
@@ -16,6 +18,10 @@ for n, m, r in rows:
         oc, w = "not evaluated", ""
     else:
         oc = ("**caught** (exit 1, %d violation lines)" % r["violation_lines"]) if r["caught"] else ("NOT caught (exit %s)" % r["exit_code"])
+        if r.get("first_evaluation"):
+            oc += "; " + r["first_evaluation"]
+        if r.get("note"):
+            oc += "; " + r["note"].replace("|", "\\|")
         caught += 1 if r["caught"] else 0
         w = r["first_witness"][:220].replace("|", "\\|")
     out.append("| %s | %s | %s | %s | %s |" % (n, m["summary"][:260].replace("|", "\\|").replace("\n", " "), m.get("needs", "")[:200].replace("|", "\\|").replace("\n", " "), oc, w))
